@@ -22,7 +22,7 @@ for p in props:
     if not cs and not bcs:
         meta[pid] = {"claimed": False, "na_reason": n.get("na_reason", "no check built")}
         continue
-    level = "proof" if proved else "exploration"
+    level = n.get("level") or ("proof" if proved else "exploration")
     fl = ", ".join(sorted({c.qualname.split(".")[-1] for c in proved}))
     if level == "proof":
         text = ("Deductive proof, for all inputs, of the kernel functions this property rests on (%d functions under contract: %s%s): every "
@@ -31,6 +31,8 @@ for p in props:
                 "checks on the real code) is a bounded stand-in only and is never counted as proved."
                 % (len(proved), fl, ("; %d corollaries over the contracts" % len(cors)) if cors else "", n.get("proof_note", ""), len(bcs)))
     else:
+        if proved:
+            n = dict(n); n["why_not_proof"] = n.get("why_not_proof", "") + " (%d helper functions are proved by engine A: %s.)" % (len(proved), fl)
         text = ("Bounded exploration only: %d contract-style checks run the real code over exhaustive small domains plus seeded random inputs and "
                 "compare against oracles written from the property statement. %s No part of this property is claimed as proved."
                 % (len(bcs), n.get("why_not_proof", "")))
